@@ -383,7 +383,17 @@ parser = opparse.Parser(
 )
 
 
-def _guarantee_call(parent, context, resolve=True):
+def _expect(node, value, *types):
+    """Raise a SyntaxError at node if value is not an instance of types."""
+    if not isinstance(value, types):
+        expected = " or ".join(
+            "a variable" if t is Element else "a call" for t in types
+        )
+        raise node.location.syntax_error(f"Expected {expected} here")
+    return value
+
+
+def _guarantee_call(parent, context, resolve=True, node=None):
     """Always returns a Call instance.
 
     If given an Element, return a Call with that Element as the function
@@ -393,6 +403,8 @@ def _guarantee_call(parent, context, resolve=True):
         name = VSymbol(parent.name) if parent.name and resolve else parent.name
         parent = parent.clone(capture=None, name=name).without_focus()
         parent = Call(element=parent, captures=(), immediate=False)
+    if node is not None:
+        _expect(node, parent, Call)
     assert isinstance(parent, Call)
     return parent
 
@@ -438,11 +450,12 @@ def make_group(node, _1, element, _2, context):
 def make_nested_imm(node, parent, child, context):
     parent = evaluate(parent, context=context)
     child = evaluate(child, context=context)
-    parent = _guarantee_call(parent, context=context)
+    parent = _guarantee_call(parent, context=context, node=node)
     if isinstance(child, Element):
         child = child.with_focus()
         return parent.clone(captures=parent.captures + (child,))
     else:
+        _expect(node, child, Call)
         return parent.clone(
             children=parent.children + (child.clone(immediate=False),),
         )
@@ -472,26 +485,28 @@ def make_class(node, element, tag, context):
         evaluate(element, context=context) if element else Element(name=None)
     )
     tag = value_evaluate(tag)
+    _expect(node, element, Element)
     return element.clone(category=tag)
 
 
 @evaluate.register_action("_ ! X")
 def make_focus(node, _, element, context):
     element = evaluate(element, context=context)
-    assert isinstance(element, Element)
+    _expect(node, element, Element)
     return element.with_focus()
 
 
 @evaluate.register_action("_ !! X")
 def make_double_focus(node, _, element, context):
     element = evaluate(element, context=context)
-    assert isinstance(element, Element)
+    _expect(node, element, Element)
     return element.clone(tags=frozenset({2}))
 
 
 @evaluate.register_action("_ $ X")
 def make_dollar(node, _, name, context):
     name = evaluate(name, context=context)
+    _expect(node, name, Element)
     return Element(name=None, category=None, capture=name.name, tags=name.tags)
 
 
@@ -501,7 +516,7 @@ def make_call_capture(node, fn, names, _, context):
     fn = evaluate(fn, context=context)
     names = evaluate(names, context="incall") if names else []
     names = names if isinstance(names, list) else [names]
-    fn = _guarantee_call(fn, context=context)
+    fn = _guarantee_call(fn, context=context, node=node)
     caps = tuple(name for name in names if isinstance(name, Element))
     children = tuple(name for name in names if isinstance(name, Call))
     return fn.clone(
@@ -522,6 +537,8 @@ def make_sequence(node, a, b, context):
 def make_as(node, element, name, context):
     element = evaluate(element, context=context)
     name = evaluate(name, context=context)
+    _expect(node, element, Element, Call)
+    _expect(node, name, Element)
     if isinstance(element, Element):
         return element.clone(capture=name.name, tags=element.tags | name.tags)
     else:
@@ -540,6 +557,7 @@ def make_equals(node, element, value, context, matchfn=False):
     value = value_evaluate(value)
     if matchfn:
         value = VCall(MatchFunction, (value,))
+    _expect(node, element, Element, Call)
     if isinstance(element, Element):
         return element.clone(value=value, capture=element.capture)
     else:
@@ -727,7 +745,8 @@ def vmake_call(node, fn, args, _, context):
 @value_evaluate.register_action("X = X")
 def vmake_keyword(node, key, value, context):
     key = value_evaluate(key)
-    assert isinstance(key, VSymbol)
+    if not isinstance(key, VSymbol):
+        raise node.location.syntax_error("Expected a keyword name here")
     value = value_evaluate(value)
     return VKeyword(key, value)
 
